@@ -52,7 +52,8 @@ Definition deep_equal (g : gval) (j : jval) : bool :=
   end.
 
 Definition jmodel := list (key * jval).
-Inductive res := RModel (m : jmodel) | RColl (c : list jval).
+(* RNull: the entry / served value is the JSON text `null` (CreateEvent(nil), a seeded entry) *)
+Inductive res := RModel (m : jmodel) | RColl (c : list jval) | RNull.
 
 (* Go map operations on the association list (first entry of a key wins) *)
 Fixpoint mget (k : key) (m : jmodel) : option jval :=
@@ -140,6 +141,7 @@ Definition decode (c : cfg) (r : res) : option res :=
   match c_type c, r with
   | TModel, RModel m => option_map RModel (dec_model (c_ty c) m)
   | TColl, RColl l => option_map RColl (dec_list (c_ty c) l)
+  | _, RNull => Some RNull                              (* null into a map / slice type: nil, no error *)
   | _, _ => None
   end.
 
@@ -215,6 +217,10 @@ Definition apply_change (c : cfg) (s : state) (cs : list (key * act gval)) : out
     match start c s with
     | None => Failed s                                   (* res.ErrNotFound *)
     | Some (RColl _) => Failed s                         (* json: cannot unmarshal array into map *)
+    | Some RNull =>
+      (* null unmarshals into a nil map: reading and delete() are fine, m[k] = v panics *)
+      if existsb (fun ka => match snd ka with Put _ => true | Del => false end) cs
+      then Failed s else Applied s (ORev [])
     | Some (RModel m0) =>
       let (m1, rev) := change_loop cs m0 in
       if is_nil rev then Applied s (ORev [])             (* no actual change: nothing written *)
@@ -235,11 +241,13 @@ Definition apply_add (c : cfg) (s : state) (v : gval) (i : N) : outcome :=
   match c_type c with
   | TModel => Failed s
   | TColl =>
-    match (match start c s with Some r => r | None => RColl [] end) with
+    (* a missing collection without Default and a stored `null` (nil slice) count as empty *)
+    match (match start c s with Some RNull => RColl [] | Some r => r | None => RColl [] end) with
     | RModel _ => Failed s
     | RColl l =>
       if len l <? i then Failed s
       else Applied (St (Some (RColl (insert_at (N.to_nat i) (norm v) l))) (st_idx s)) ONone
+    | RNull => Failed s
     end
   end.
 
@@ -250,6 +258,7 @@ Definition apply_remove (c : cfg) (s : state) (i : N) : outcome :=
     match start c s with
     | None => Failed s
     | Some (RModel _) => Failed s
+    | Some RNull => Failed s                             (* nil slice: index out of range *)
     | Some (RColl l) =>
       if len l <=? i then Failed s
       else Applied (St (Some (RColl (remove_at (N.to_nat i) l))) (st_idx s)) ONone
@@ -417,5 +426,5 @@ Definition field_key (f : key) : keyfn := fun r =>
     | Some (JNum n) => Some [48 + n mod 10]
     | _ => None
     end
-  | RColl _ => None
+  | _ => None
   end.
